@@ -287,19 +287,19 @@ PROPS = {
     ),
     "C19": dict(
         functions=[CS + "CorpusShufflingTool.corpus_from_reference#names", CS + "CorpusShufflingTool.corpus_from_reference#count",
-                   CS + "CorpusShufflingTool.false_neg_shuffle", CS + "CorpusShufflingTool.shift_shuffle", CS + "CorpusShufflingTool.splits_shuffle", CS + "CorpusShufflingTool.corpus_shuffle#names", CS + "CorpusShufflingTool.corpus_shuffle#count",
+                   CS + "CorpusShufflingTool.false_neg_shuffle", CS + "CorpusShufflingTool.shift_shuffle", CS + "CorpusShufflingTool.splits_shuffle", CS + "CorpusShufflingTool.corpus_shuffle#names", CS + "CorpusShufflingTool.corpus_shuffle#count", CS + "CorpusShufflingTool.false_pos_shuffle", CT + "Continuum.category_weights",
                    CS + "CorpusShufflingTool.__init__", CT + "Continuum.avg_length_unit",
                    CT + "Continuum.__getitem__#annotator"]
                   + [CT + "Continuum." + m for m in ("__init__", "add", "remove", "iter_annotator", "annotators", "bounds")] + [CT + "Unit.__lt__"],
         oracles=[CS + "CorpusShufflingTool.corpus_shuffle"],
         bounded=[dict(oracle=CS + "CorpusShufflingTool.corpus_shuffle",
                       what="corpus_shuffle (annotator names given, or a number of annotators: names annotator_0..k-1) is proved for every combination of flags over the proved contracts of "
-                           "corpus_from_reference / shift / false-negative / split shuffles and the ASSUMED set-level contracts of false_pos_shuffle "
-                           "and category_shuffle (numpy statistics / transition matrices outside the encoding): exactly the requested annotators "
+                           "corpus_from_reference / shift / false-negative / false-positive / split shuffles and the ASSUMED set-level contract of "
+                           "category_shuffle (transition matrices outside the encoding): exactly the requested annotators "
                            "(+ the reference when asked, AssertionError iff its name is requested), none empty, valid units. The counting clauses "
                            "(shift keeps the number of units, a split adds one and keeps the total duration) need the genericity hypothesis G; "
                            "magnitude 0 = exact copy is not composed deductively. All of these, and "
-                           "the two assumed contracts, are exercised on seeded runs on random single-annotator references, magnitudes 0 / 0.2 / "
+                           "the assumed contract, are exercised on seeded runs on random single-annotator references, magnitudes 0 / 0.2 / "
                            "0.5 / 1, names or counts, every flag alone and random combinations, include_ref")],
         design_ref="DESIGN.md section 4 C19 (K1-K4)",
         not_decided=["genericity hypothesis G: a freshly drawn continuous coordinate does not coincide exactly with an existing unit's",
@@ -403,7 +403,8 @@ PROPS = {
                      DS + "AbstractDissimilarity._build_arrays_alignment",
                      SP + "ShuffleContinuumSampler.sample_from_continuum", SP + "StatisticalContinuumSampler.sample_from_continuum",
                      CS + "CorpusShufflingTool.corpus_from_reference#names", CS + "CorpusShufflingTool.corpus_from_reference#count",
-                     CS + "CorpusShufflingTool.false_neg_shuffle", CS + "CorpusShufflingTool.__init__",
+                     CS + "CorpusShufflingTool.false_neg_shuffle", CS + "CorpusShufflingTool.false_pos_shuffle", CT + "Continuum.category_weights",
+                     CS + "CorpusShufflingTool.__init__",
                      # sampler initialisation (modifies the sampler only: the reference continuum's frame is discharged), recomputed disorders
                      SP + "AbstractContinuumSampler.init_sampling#given", SP + "AbstractContinuumSampler.init_sampling#default",
                      SP + "ShuffleContinuumSampler.init_sampling#given", SP + "ShuffleContinuumSampler.init_sampling#default",
